@@ -199,13 +199,14 @@ pub fn stages(args: &Args, mode: Mode, allow_orient: bool) -> Vec<Stage> {
         prog: po(6, 128 * 128),
         n: args.n(400, 8000),
     });
-    if !q {
+    // full-size built-in panels at pin / SPI level (a clear is 76 800 … 153 600 pixels)
+    if !sm {
         v.push(Stage {
             name: "l2-full-panels",
             mode,
-            cfg: CfgOpts { external: false, l1: false, l2: true, max_l2_area: 320 * 480 },
-            prog: po(12, 320 * 480),
-            n: args.n(0, 3000),
+            cfg: CfgOpts { external: false, l1: false, l2: true, max_l2_area: 320 * 536 },
+            prog: po(if q { 5 } else { 12 }, 320 * 536),
+            n: args.n(32, 3000),
         });
     }
     v
@@ -241,6 +242,13 @@ pub fn run_draw(args: &Args, prop: &'static str, mode: Mode, allow_orient: bool,
                     cfg.ox = rng.range(0, (fw - cfg.w) as i64) as u16;
                     cfg.oy = rng.range(0, (fh - cfg.h) as i64) as u16;
                 }
+            }
+            if st.name == "l2-full-panels" && rng.chance(3, 4) {
+                let (fw, fh) = cfg.model.fb();
+                cfg.w = fw;
+                cfg.h = fh;
+                cfg.ox = 0;
+                cfg.oy = 0;
             }
             if st.name == "l1-large" {
                 // windows of several hundred pixels per side (or all the framebuffer has), often
